@@ -31,6 +31,6 @@ def obligations(tier):
         Ob("C20.overrides_reach", F, "overrides_reach", 60, expect="refute", what="twin: an override is visible to new instances"),
     ]
     obs.append(Ob("C20.instances", F, "instances", 300, what="two calls of a class that declares constant_fields: each message rendered from its own call's fields; earlier objects and the class constants unchanged"))
-    for t in range(5):
+    for t in range(6):
         obs.append(Ob("C20.render", F, "render", 200, part=str(t), what="message = explicit message, else template with each field through the formatter method named by its spec"))
     return obs
